@@ -650,6 +650,10 @@ func c19Validators(c *Ctx, env *provEnv) {
 				if f.Op == "true" && !f.Pos && f.A.K == 'k' && f.A.Name == "strings.ContainsRune" && len(f.A.Args) == 2 && f.A.Args[0].String() == TVar(nameP).String() && f.A.Args[1].Name == "92" {
 					bs = true
 				}
+				// the same test on the one-character string
+				if f.Op == "true" && !f.Pos && f.A.K == 'k' && (f.A.Name == "strings.Contains" || f.A.Name == "strings.ContainsAny") && len(f.A.Args) == 2 && f.A.Args[0].String() == TVar(nameP).String() && f.A.Args[1].K == 'c' && f.A.Args[1].Name == `"\\"` {
+					bs = true
+				}
 			}
 			// some term equal to path.Clean("/"+name) equals "/"+name and differs from "/"
 			isClean := func(t *Term) bool {
